@@ -241,5 +241,50 @@ PROPS["C10"] = {
     "technique": "Lean 4 proof over a decision model + finite abstraction; differential check of real repair passes with raw-statement monitors",
 }
 
+_ZK_COMPONENTS = ["MysyncModel/Dcs/Zk.lean (ZooKeeper primitives: create/getData/setData/delete/getChildren with versions, ephemeral owners, session open/expiry; zkDCS.create/set/Get/Delete/GetChildren/makePath/AcquireLock/ReleaseLock/buildFullPath as programs over them)",
+                  "MysyncModel/Replay/Zk.lean (history replay: every primitive of the fake ensemble against the model server, every client operation against the model program, lock cache, GetTree against a spec function)"]
+_ZK_TRUSTED = ["T5 fake ZooKeeper ensemble (jute protocol over net.Pipe; create/delete/set error precedence as in ZooKeeper 3.x PrepRequestProcessor) — validated line by line against the model server, not against a real ZooKeeper (none available offline)",
+               "go-zookeeper v1.0.4 is the REAL client library (sessions, reconnects, request queue); NewZookeeper's host provider / TLS / auth set-up is replaced by a hand-built zkDCS (same struct, same event goroutine)",
+               "virtual time (testing/synctest) for the cache TTL, backoff and session time-outs"]
+_ZK_RULE = ("histories of 8-27 operations by 1-3 REAL zkDCS clients on one fake ensemble: the ten operations over 8 keys with redundant-slash spellings and 5 value shapes; "
+            "three modes: whole operations one after another / primitive-level interleaving chosen by the driver at a gate (with replies lost or requests dropped: 6%) / lock-only (acquire-release by 2-3 clients); "
+            "between steps: session expiry after a cut (E5-respecting), connection cuts, short outages, values written behind mysync's back (unparsable, empty, foreign lock record); cache TTL 0 / 2 s / 30 s; one history in 12 with two clients of the same identity. "
+            "distinct = distinct history; non-trivial = more than 3 operations and more than 5 primitives")
+
+PROPS["C15"] = {
+    "lean": ["MysyncProofs.C15"],
+    "go": [("internal/dcs", "^TestVerifC15$")],
+    "level": "proof",
+    "components": _ZK_COMPONENTS,
+    "trusted": _ZK_TRUSTED,
+    "rule": _ZK_RULE,
+    "assumptions": ["whole-operation clauses are stated for an operation that runs with no other client in between; what holds under any interleaving is stated on the server steps (owner never changes, ephemerals belong to live sessions, well-formedness) and for set's version check",
+                    "with at-least-once retries (reply lost, request re-sent by the wrapper) create can answer 'exists' for the caller's own earlier attempt: the key does exist at that moment (observation, DESIGN.md)"],
+    "min_lines": 250,
+    "level_text": "Theorems: path normal form (key depends only on the non-empty pieces; canonical spelling), tree well-formedness preserved by every primitive / expiry / session open, owner of an entry never changes (never silently ephemeral), ephemeral lifetime and re-creation by a later session, create-exists iff present, create/set/delete/get/children contracts, set creates every missing ancestor, lost update detected by the version check.",
+    "level_note": "Trusted: Lean kernel; fake ensemble (T5); go-zookeeper is real code under test, not trusted. GetTree is checked against a spec function by the replay only (no theorem).",
+    "technique": "Lean 4 proof over a server model + client programs as interaction trees; differential replay of real zkDCS histories (primitive-level interleavings in virtual time)",
+}
+
+PROPS["C03"] = {
+    "lean": ["MysyncProofs.C03"],
+    "go": [("internal/dcs", "^TestVerifC15$"), ("internal/app", "^TestVerifC05$")],
+    "level": "proof",
+    "components": _ZK_COMPONENTS + ["MysyncModel/Dcs/LockSys.lean (N clients, one lock: global small-step system over the SAME programs, arbitrary interleaving, expiry, reconnect, cache with any TTL, lost replies and blind re-sends)",
+                                    "MysyncModel/App/Manager.lean (stateManager: no lock, no step)"],
+    "trusted": _ZK_TRUSTED + ["E5 (the server ends a session only after its client noticed the loss and while none of its operations is in flight) is an ASSUMPTION of told_true_means_holder / release_removes_only_own_lock: go-zookeeper's receive time-out (2/3 of the session time-out) vs. server expiry is runtime behaviour the model cannot exhibit; the counter-models without E5 are machine-checked",
+                              "manager harness fakes (T4) for clause (ii)"],
+    "rule": _ZK_RULE + "; plus every manager iteration of the C05 runs (lock held / not held / disconnected x all inputs) for 'only the holder acts' (monitors C03:action-without-lock, C03:cluster-wide-write-without-lock)",
+    "assumptions": ["distinct {hostname,pid} identities", "E5 for the first clause (partial: see level_note)",
+                    "nobody but AcquireLock / ReleaseLock writes the lock key"],
+    "min_lines": 2000,
+    "level_text": "Theorems over the N-client system, all interleavings, any TTL: every 'true' (fresh or cached) goes to the process that holds the lock at that instant; the holder is unique; after a session loss no cache entry and not holder; ReleaseLock only ever deletes its own lock (true only since the fix: commit found by this check — every attempt re-reads the owner); TTL 0 never answers from the cache; an iteration without the lock takes no step. Counter-models without E5 (stale cache, delete sent on a later session) and the pre-fix blind re-sent delete are kernel-checked.",
+    "level_note": "PARTIAL for the real-time part: whether a deployment satisfies E5 is decided by timers (client receive time-out vs. server-side expiry, process pauses), which no executable model exhibits. Clause (ii) for states other than Manager is enforced by monitors on real runs (action alphabet), not by a theorem.",
+    "technique": "Lean 4 invariant proof over a global small-step system built from the programs that are differentially checked against the real client; monitors for ownership on real histories",
+}
+
 _todo = "machinery for this property is not built yet in this round; planned per DESIGN.md §7/§10 (no claim is made until its check exists)"
 NOT_APPLICABLE = {("C%02d" % i): _todo for i in range(1, 21)}
+
+# properties whose check exists in PROPS but is not yet claimed in MANIFEST.json (proofs in progress)
+PENDING = {"C03"}
